@@ -122,6 +122,12 @@ func (this *UTFCodec) Forward(src, dst []byte) (uint, uint, error) {
 		for (start < 4) && (_UTF_SIZES[src[start]] == 0) {
 			start++
 		}
+
+		if start > 3 {
+			// A character has at most 3 continuation bytes: this is not the tail of a
+			// character cut by the block boundary (and the header stores 'start' in 2 bits)
+			return 0, 0, errors.New("UTF forward transform skip: not UTF")
+		}
 	}
 
 	if (mustValidate == true) && (validateUTF(src[start:count-4]) == false) {
